@@ -9,13 +9,14 @@
 //
 //	nss [..]                                   the namespaces of the case in byte order
 //	file k table=[ranks]                       the namespace table of file k, in encoded order
-//	block k t nsenc=[e e e e] => [v:kind ..]   one feature block of file k (entries in EachItem order)
+//	block k t nsenc=[e e e e] => [v:kind[:paths] ..]   one feature block of file k (entries in EachItem order;
+//	                                           points: the paths recorded against them)
 //	feat k id => content|nil                   file k loaded alone: FindFeatureByID
 //	ploc k id => e7|err                        file k loaded alone: FindLocationByID
 //	load [k..] => ok                           the merged world: files merged in this order
 //	idx k q => [ids]                           the stream FindFeatures builds for the index of file k (hook)
 //	find id => merged ## union                 (union answer `-` when the case has duplicated ids)
-//	has id / hasid id / loc id / pts id / each / search q    likewise
+//	has id / hasid id / loc id / prefs id / pts id / each / search q    likewise
 //
 // The Lean driver recomputes every merged answer from the per-file facts with B6.Model.Merged and
 // evaluates the property on the implementation's answer (merged = single world of the union).
@@ -545,8 +546,9 @@ func queries() []namedQuery {
 // ---- reading a built file with the exported decoders ----------------------------------------------
 
 type entry struct {
-	v    uint64
-	kind string
+	v     uint64
+	kind  string
+	paths []compact.Reference // points: the paths recorded against the point
 }
 
 type block struct {
@@ -576,19 +578,29 @@ func parseFile(data []byte) (table []b6.Namespace, blocks []block, indices int) 
 			b := block{typ: fb.FeatureType, nsenc: fb.Namespaces}
 			fb.Map.EachItem(func(id uint64, tagged []encoding.Tagged, g int) error {
 				kind := "x"
+				var paths []compact.Reference
 				if fb.FeatureType == b6.FeatureTypePoint {
 					switch tagged[0].Tag {
 					case compact.PointTagCommon:
 						kind = "c"
+						var p compact.CommonPoint
+						p.Unmarshal(&fb.Namespaces, tagged[0].Data)
+						paths = []compact.Reference{p.Path}
 					case compact.PointTagFull:
 						kind = "f"
+						var p compact.FullPoint
+						p.Unmarshal(&fb.Namespaces, tagged[0].Data)
+						paths = append(paths, p.Paths...)
 					case compact.PointTagReferencesOnly:
 						kind = "r"
+						var r compact.PointReferences
+						r.Unmarshal(&fb.Namespaces, tagged[0].Data)
+						paths = append(paths, r.Paths...)
 					default:
 						kind = "?"
 					}
 				}
-				b.entries = append(b.entries, entry{id, kind})
+				b.entries = append(b.entries, entry{id, kind, paths})
 				return nil
 			}, 1)
 			blocks = append(blocks, b)
@@ -723,6 +735,17 @@ func runCase(t *Transcript, c *gcase) {
 			es := make([]string, len(b.entries))
 			for i, e := range b.entries {
 				es[i] = fmt.Sprintf("%d:%s", e.v, e.kind)
+				if len(e.paths) > 0 { // decoded through the file's own table, as findPathsByPoint does
+					xs := make([]string, len(e.paths))
+					for j, p := range e.paths {
+						_, code := p.TypeAndNamespace.Split()
+						xs[j] = "?"
+						if int(code) < len(ps[k].table) {
+							xs[j] = rk.id(b6.FeatureID{Type: b6.FeatureTypePath, Namespace: ps[k].table[code], Value: p.Value})
+						}
+					}
+					es[i] += ":" + strings.Join(xs, ",")
+				}
 			}
 			t.Op(fmt.Sprintf("block %d %d nsenc=[%d %d %d %d]", k, int(b.typ), b.nsenc[b6.FeatureTypePoint], b.nsenc[b6.FeatureTypePath], b.nsenc[b6.FeatureTypeArea], b.nsenc[b6.FeatureTypeRelation]), hx.List(es))
 			ns := b6.NamespaceInvalid
@@ -810,15 +833,21 @@ func runCase(t *Transcript, c *gcase) {
 		both("find "+s, func(w b6.World) string { return rk.content(w.FindFeatureByID(id)) })
 		both("has "+s, func(w b6.World) string { return fmt.Sprint(w.HasFeatureWithID(id)) })
 		t.Op("hasid "+s, guard(func() string { return fmt.Sprint(byID.HasFeatureWithID(id)) }))
-		if id.Type == b6.FeatureTypePoint {
-			both("loc "+s, func(w b6.World) string {
-				ll, err := w.FindLocationByID(id)
-				if err != nil {
-					return "err"
-				}
-				return e7(ll)
-			})
-		}
+		// for ids of every type: FindLocationByID looks in the point blocks whatever the type of the id
+		both("loc "+s, func(w b6.World) string {
+			ll, err := w.FindLocationByID(id)
+			if err != nil {
+				return "err"
+			}
+			return e7(ll)
+		})
+		both("prefs "+s, func(w b6.World) string {
+			ids := featIDs(w.FindReferences(id, b6.FeatureTypePath))
+			if w != b6.World(m) {
+				sort.Slice(ids, func(i, j int) bool { return ids[i].Less(ids[j]) })
+			}
+			return rk.list(ids)
+		})
 		if id.Type == b6.FeatureTypePath {
 			both("pts "+s, func(w b6.World) string {
 				p, ok := w.FindFeatureByID(id).(b6.PhysicalFeature)
@@ -900,7 +929,7 @@ func caseChild(arg string) string {
 }
 
 const (
-	quick    = 600
+	quick    = 480
 	thorough = 6000
 )
 
